@@ -39,8 +39,9 @@ Definition fetch_origin (dir ctlh : string) : members :=
      m_dat := origin (PMember dir MDat (datahash_of ctl));
      m_tar := origin (PMember dir MTar (datahash_of ctl)) |}.
 
-(* the signature section is optional in the cache (unsigned packages) and is
-   not part of what gets installed: compare the installed parts *)
+(* the files that get installed; the signature section is compared separately:
+   it is optional in the cache (unsigned packages) but its SIZE is recorded in
+   the image (S: line of the installed database), see c19_lookup_not_atomic_refuted *)
 Definition installed_eq (a b : members) : Prop :=
   m_ctl a = m_ctl b /\ m_dat a = m_dat b /\ m_tar a = m_tar b.
 
